@@ -31,6 +31,11 @@ pub struct Case {
     /// shared PV, multi-fuel cogeneration): the DHW indicator's branches are reached
     #[serde(default)]
     pub dhw: Option<crate::dhw::DhwCase>,
+    /// program-level part: 0 = k_exp and area given as options; 1..=3 = given as metadata lines of the file (values the
+    /// metadata hold exactly), at the top of the canonical file and, in the rewritten one, at the top (1), after the
+    /// first component line (2) or at the end (3): metadata lines are lines, and reordering lines must not matter
+    #[serde(default)]
+    pub cli_meta: u8,
 }
 
 pub fn base_of(c: &Case) -> BFCase {
@@ -73,8 +78,8 @@ impl Prop for C10 {
         let mut p = params(tier);
         p.with_needs = true;
         let cli_p = tier.pick(0.015, 0.02);
-        (bf_case(p, 40), layout_s(), vec(rewrite_s(), 0..=4), prop::bool::weighted(cli_p), proptest::option::weighted(0.2, crate::dhw::dhw_case(12)))
-            .prop_map(|(base, layout, rewrites, cli, dhw)| Case { base, layout, rewrites, cli, dhw })
+        (bf_case(p, 40), layout_s(), vec(rewrite_s(), 0..=4), prop::bool::weighted(cli_p), proptest::option::weighted(0.2, crate::dhw::dhw_case(12)), 0u8..4)
+            .prop_map(|(base, layout, rewrites, cli, dhw, cli_meta)| Case { base, layout, rewrites, cli, dhw, cli_meta })
             .boxed()
     }
     fn describe(c: &Case) -> Value {
@@ -163,7 +168,8 @@ impl Prop for C10 {
             }
         }
         if c.cli {
-            check_cli(e, &t0, &t1, &sc, !ratios_ok, ctx)?;
+            check_cli(e, &t0, &t1, &sc, !ratios_ok, c.cli_meta, ctx)?;
+            ctx.label(format!("cli_meta_{}", c.cli_meta));
             ctx.label("cli_run");
         }
         // classification
@@ -190,8 +196,12 @@ impl Prop for C10 {
     }
 }
 
-fn cli_args(e: &BFCase, file: &str) -> (Vec<String>, Vec<(String, Vec<u8>)>) {
-    let mut args: Vec<String> = vec!["-c".into(), file.into(), format!("--kexp={}", f32_text(e.k)), format!("--arearef={}", f32_text(e.area))];
+fn cli_args(e: &BFCase, file: &str, by_options: bool) -> (Vec<String>, Vec<(String, Vec<u8>)>) {
+    let mut args: Vec<String> = vec!["-c".into(), file.into()];
+    if by_options {
+        args.push(format!("--kexp={}", f32_text(e.k)));
+        args.push(format!("--arearef={}", f32_text(e.area)));
+    }
     let mut files = vec![];
     let (red1, red2) = match &e.f {
         FactorCase::Regulatory { loc, red1, red2 } => {
@@ -221,10 +231,56 @@ fn cli_args(e: &BFCase, file: &str) -> (Vec<String>, Vec<(String, Vec<u8>)>) {
 }
 
 /// the same file twice in two processes, and the rewritten file
-fn check_cli(e: &BFCase, t0: &str, t1: &str, sc: &crate::tol::Scales, rer_is_noise: bool, _ctx: &mut Ctx) -> CheckResult {
+/// `text` with two metadata lines (area, k_exp) at the top (pos 1), after the first component line (2) or at the end (3)
+fn with_meta(text: &str, area: f32, k: f32, pos: u8) -> String {
+    let nl = if text.contains("\r\n") { "\r\n" } else { "\n" };
+    let meta = format!("#META CTE_AREAREF: {:.2}{}#META CTE_KEXP: {:.1}{}", area, nl, k, nl);
+    let (bom, body) = match text.strip_prefix('\u{feff}') {
+        Some(rest) => ("\u{feff}", rest),
+        None => ("", text),
+    };
+    match pos {
+        2 => {
+            // after the first line that is a component (not blank, not a comment, not the `vector` header)
+            let mut out = String::new();
+            let mut done = false;
+            for l in body.split_inclusive('\n') {
+                out.push_str(l);
+                let t = l.trim();
+                if !done && !t.is_empty() && !t.starts_with('#') && !t.to_lowercase().starts_with("vector") {
+                    if !l.ends_with('\n') {
+                        out.push_str(nl);
+                    }
+                    out.push_str(&meta);
+                    done = true;
+                }
+            }
+            if !done {
+                out.push_str(&meta);
+            }
+            format!("{}{}", bom, out)
+        }
+        3 => format!("{}{}{}{}", bom, body, if body.ends_with('\n') || body.is_empty() { "" } else { nl }, meta),
+        _ => format!("{}{}{}", bom, meta, body),
+    }
+}
+
+fn check_cli(e: &BFCase, t0: &str, t1: &str, sc: &crate::tol::Scales, rer_is_noise: bool, cli_meta: u8, _ctx: &mut Ctx) -> CheckResult {
     if e.area <= 1e-3 {
         return Ok(());
     }
+    // k_exp and area as metadata of the file: values the metadata hold exactly
+    let mut e = e.clone();
+    let (mut t0, mut t1) = (t0.to_string(), t1.to_string());
+    if cli_meta >= 1 && e.area >= 0.01 {
+        e.k = format!("{:.1}", e.k).parse::<f32>().unwrap();
+        e.area = format!("{:.2}", e.area).parse::<f32>().unwrap().max(0.01);
+        t0 = with_meta(&t0, e.area, e.k, 1);
+        t1 = with_meta(&t1, e.area, e.k, cli_meta);
+    }
+    let by_options = !(cli_meta >= 1 && e.area >= 0.01);
+    let e = &e;
+    let (t0, t1) = (t0.as_str(), t1.as_str());
     let report = |args: &[String], files: &[(String, Vec<u8>)]| -> Result<crate::props::c17::Report, Failure> {
         let run = run_cli_checked(args, files).map_err(|x| Failure::new("harness", x))?;
         let r = (|| {
@@ -238,11 +294,11 @@ fn check_cli(e: &BFCase, t0: &str, t1: &str, sc: &crate::tol::Scales, rer_is_noi
         run.cleanup();
         r
     };
-    let (a0, mut f0) = cli_args(e, "comp.csv");
+    let (a0, mut f0) = cli_args(e, "comp.csv", by_options);
     f0.push(("comp.csv".to_string(), t0.as_bytes().to_vec()));
     let r1 = report(&a0, &f0)?;
     let r2 = report(&a0, &f0)?;
-    let (a1, mut f1) = cli_args(e, "rewritten.csv");
+    let (a1, mut f1) = cli_args(e, "rewritten.csv", by_options);
     f1.push(("rewritten.csv".to_string(), t1.as_bytes().to_vec()));
     let r3 = report(&a1, &f1)?;
     let noise = 2.0 * tol(sc.tot_weighted.max(sc.tot_energy), sc.n) / (e.area as f64) + 0.1001;
